@@ -37,6 +37,11 @@ func (e *AccessorExpr) Evaluate(engine *Engine, input interface{}, args []*State
 			t = t.Elem()
 		}
 		returnType := e.getReturnType(accessor, reflect.New(t).Interface())
+		if returnType == nil {
+			return nil, fmt.Errorf(
+				`%s does not have a method or property named "%s"`,
+				t.Name(), accessor)
+		}
 
 		results := reflect.MakeSlice(reflect.SliceOf(returnType), 0, 0)
 
